@@ -135,11 +135,22 @@ def parseType (t : String) : TypeD :=
       kind := if k == "s" then .struct fields else if k == "i" then .iface else .scalar, doc := lines doc }
   | _ => { name := [], exported := false, kind := .iface, doc := [] }
 
-def run (fxB : Bool) (id : String) (names : String) (types : List String) : String :=
-  let p : Pkg := types.map parseType
-  match runtimeDoc fxB fxB p (p.length + 2) id.toNat! (if names == "-" then [] else [names.toList]) with
+def run1 (f16 f19 : Bool) (p : Pkg) (id : Nat) (names : String) : String :=
+  match runtimeDoc f16 f19 p (p.length + 2) id (if names == "-" then [] else [names.toList]) with
   | none => "none"
   | some ls => "some " ++ String.intercalate "|" (ls.map hex)
+
+def run (fxB : Bool) (id : String) (names : String) (types : List String) : String :=
+  run1 fxB fxB (types.map parseType) id.toNat! names
+
+/-- every query of the package: exported non-interface types × the name list, in order -/
+def runAll (f16 f19 : Bool) (names : List String) (types : List String) : String :=
+  let p : Pkg := types.map parseType
+  let qs := (List.range p.length).flatMap fun i =>
+    match p[i]? with
+    | some t => if t.exported && (match t.kind with | .iface => false | _ => true) then names.map fun n => run1 f16 f19 p i n else []
+    | none => []
+  String.intercalate ";" qs
 end RdProbe
 
 namespace TlProbe
@@ -605,6 +616,7 @@ def handle (fx : String → Bool) (line : String) : String :=
     let b (prev : Bool) : String := if DeepCopy.compiles (fx "F14") prev p then "ok" else "fail"
     "run1 " ++ r1 ++ " build=" ++ b false ++ " run2 " ++ DcProbe.run f "1" decls ++ " build=" ++ b true
   | "rdoc" :: id :: names :: types => RdProbe.run fxB id names types
+  | "rdocall" :: n :: rest => RdProbe.runAll (fx "F16") (fx "F19") (rest.take n.toNat!) (rest.drop n.toNat!)
   | "tlit" :: self :: names :: toks => TlProbe.run (if fx "F10" then "1" else "0") self names toks
   | "track" :: hs =>
     let r := (hs.map unhex).foldl (fun (acc : Option (Tracker.Tracker × List String)) p =>
